@@ -336,6 +336,20 @@ Push(kind, v) ==
           /\ UNCHANGED ev
           /\ Log(Rec("push", ctx, IF kind = "call" THEN 1 ELSE IF kind = "delegate" THEN 2 ELSE 3, v, nextId), <<"ok">>)
 
+\* a transaction whose recipient is a Quai address in ANOTHER zone: the top-level evm.Call(origin, to, value 1) takes its
+\* snapshot and goes straight to EVM.CreateETX (only the top-level call can: inside a frame gasCall refuses a foreign
+\* address).  elig = the destination zone may receive ETXs (BlockContext.CheckIfEtxEligible).  When it may not,
+\* CreateETX fails AFTER it has debited the origin and relies on evm.Call reverting to the snapshot: the failed
+\* transaction leaves nothing behind.  One step = the whole transaction.
+TopXCall(from, elig) ==
+    /\ On("xcall") /\ Depth = 0 /\ ~cnt.done /\ cnt.snap = 0 /\ cnt.mut = 0 /\ st.acct[from].bal >= 1
+    /\ cnt' = [cnt EXCEPT !.done = TRUE, !.mut = 1, !.snap = 1, !.failed = ~elig]
+    /\ saved' = Append(saved, Vis) /\ nextId' = nextId + 1
+    /\ LET m == IF elig THEN MSubBalance(M0, from, 1) ELSE M0 IN st' = m.x /\ jr' = m.j
+    /\ ev' = IF elig THEN [ev EXCEPT !.etx = Append(@, <<1, from>>)] ELSE ev
+    /\ UNCHANGED revs
+    /\ Log(Rec("xcall", from, B(elig), 1, nextId), <<IF elig THEN "ok" ELSE "fail">>)
+
 PopCommon(m, e, rec) ==
     /\ st' = m.x /\ jr' = m.j /\ ev' = e
     /\ revs' = SubSeq(revs, 1, Depth - 1)
@@ -386,6 +400,7 @@ Next ==
     \/ \E to \in XferTo : Xfer(to)
     \/ \E k \in {"call", "delegate", "create"}, v \in {0, 1} : Push(k, v)
     \/ PopOk \/ PopSuicide
+    \/ \E from \in XferTo, elig \in BOOLEAN : TopXCall(from, elig)
     \/ \E w \in 1..4 : PopAbort(w)
 
 Spec == Init /\ [][Next]_vars
@@ -402,9 +417,10 @@ TypeOK ==
 \* the step just taken reverted to the snapshot with this id (0-based id -> saved[id + 1])
 LastRec == hist'[Len(hist')]
 IsRevertStep == step' = step + 1 /\ LastRec.op \in {"revert", "popabort"}
+IsFailedXCall == step' = step + 1 /\ LastRec.op = "xcall" /\ LastRec.s = 0
 
 \* C12: after a revert the visible state (everything except gas) is the one saved at the snapshot
-RevertRestores == [][IsRevertStep => Vis' = saved[LastRec.id + 1]]_vars
+RevertRestores == [][(IsRevertStep \/ IsFailedXCall) => Vis' = saved'[LastRec.id + 1]]_vars
 
 \* C12, second sentence: a revert cuts exactly at the frame's entry - everything journaled before it
 \* (ancestors and siblings that completed earlier) and every enclosing frame record is untouched
